@@ -25,6 +25,7 @@ import Pycdlib.Model.Extents
 import Pycdlib.Model.UdfNames
 import Pycdlib.Model.InPlace
 import Pycdlib.Model.VdOrder
+import Pycdlib.Model.Reloc
 namespace Pycdlib
 
 def parseCps (s : String) : Option (List Nat) :=
@@ -170,6 +171,11 @@ def dispatchPure (toks : List String) : Option String :=
     match InPlace.plan i with
     | none => pure "refused"
     | some ws => pure (" ".intercalate (ws.map fun w => s!"{w.1}:{w.2}"))
+  | ["relocmany", name, k] => do
+    -- identifiers of k relocated directories that all are called `name`, in the order they get them
+    match Reloc.relocMany name.toList (← k.toNat?) [] with
+    | some l => pure (".".intercalate (l.map String.ofList))
+    | none => pure "none"
   | ["vdorder", p, b, sv, t] => do
     let c : VdOrder.Counts := { pvds := ← p.toNat?, brs := ← b.toNat?, svds := ← sv.toNat?, vdsts := ← t.toNat? }
     pure s!"{".".intercalate ((VdOrder.order c).map toString)} {if VdOrder.udfRoomForOneMore c then 1 else 0}"
